@@ -254,8 +254,8 @@ func runCancelCase(c cancelCase) *Violation {
 		fakeOnOp(nil)
 	}
 	// closure combined with a write failure that is reported only by the final sync (FIFO destination,
-	// outputs that fit a pipe buffer): whichever error is reported, nothing stays at the path
-	if size0 <= 32<<10 {
+	// outputs up to 256 KiB): whichever error is reported, nothing stays at the path
+	if size0 <= 256<<10 {
 		for _, k := range []int{w, w - 1, w - 2, w / 2, 1, 0} {
 			if k < 0 {
 				continue
